@@ -563,6 +563,7 @@ func (se *SessionExecutor) recycleBackendConn(pc backend.PooledConnect) {
 
 	if pc.IsClosed() {
 		se.recycleTx()
+		se.unpinKsConn(pc)
 		pc.Recycle()
 		return
 	}
@@ -584,12 +585,23 @@ func (se *SessionExecutor) recycleBackendConn(pc backend.PooledConnect) {
 	pc.Recycle()
 }
 
+// unpinKsConn forgets a keep-session connection that is about to be returned to its pool because the backend closed it:
+// left in ksConns it would be handed to the next statement and returned a second time when the client exits
+func (se *SessionExecutor) unpinKsConn(pc backend.PooledConnect) {
+	for sliceName, ksConn := range se.ksConns {
+		if ksConn == pc {
+			delete(se.ksConns, sliceName)
+		}
+	}
+}
+
 func (se *SessionExecutor) recycleContinueConn(pc backend.PooledConnect) {
 	if pc == nil {
 		return
 	}
 	if pc.IsClosed() {
 		se.recycleTx()
+		se.unpinKsConn(pc)
 		pc.Recycle()
 		return
 	}
